@@ -33,7 +33,8 @@ class C04(Check):
     title = "Object -> DAO -> object round trip preserves structure, types and aliasing"
     rule = (
         "Hypothesis draws a model (documented modelling rules plus a class persisted through a lossless alternative "
-        "mapping, a dataclass persisted through an alternative mapping together with a normally mapped subclass of it, "
+        "mapping, a dataclass persisted through an alternative mapping together with a normally mapped subclass of it "
+        "that refers back into the model (cycles), an alternative mapping that builds mapped helper objects on the fly, "
         "and a value persisted through a lossless custom column type) and, per model, several object graphs "
         "of 1-8 nodes with references by index, so sharing, back references, self loops and cycles are drawn "
         "directly; None for optional fields, empty collections, subclass instances in base-typed fields, "
